@@ -276,6 +276,11 @@ loop:
 
 	c = b[0]
 
+	// A block is decoded into one HeaderField, field after field. "Never
+	// indexed" belongs to the field that says so: left set, it marked every
+	// literal after it as sensitive, in the list and in the dynamic table.
+	hf.sensible = false
+
 	switch {
 	// Indexed Header Field.
 	// The value must be indexed in the static or the dynamic table.
